@@ -801,7 +801,23 @@ func ruleNegIdx(c *Ctx) {
 			var idx ssa.Value
 			allInstrs(fn, func(i ssa.Instruction) {
 				if call, ok := i.(*ssa.Call); ok {
-					if f := call.Call.StaticCallee(); f != nil && stdName(f) == "strconv.Atoi" {
+					f := call.Call.StaticCallee()
+					if f == nil {
+						return
+					}
+					// the index parser: strconv.Atoi, or any function (int, error) applied to the key
+					res := f.Signature.Results()
+					isParser := stdName(f) == "strconv.Atoi"
+					if !isParser && res.Len() == 2 && isErrorType(res.At(1).Type()) && len(fn.Params) > 1 {
+						if bt, ok := res.At(0).Type().Underlying().(*types.Basic); ok && bt.Kind() == types.Int {
+							for _, a := range call.Call.Args {
+								if a == ssa.Value(fn.Params[1]) {
+									isParser = true
+								}
+							}
+						}
+					}
+					if isParser {
 						for _, ex := range extractOf(call, 0) {
 							idx = ex
 						}
@@ -809,7 +825,7 @@ func ruleNegIdx(c *Ctx) {
 				}
 			})
 			if idx == nil {
-				l.add("R-NEGIDX", b.Name, key, b.rel(fn.Pos()), Undecided, "the index is not parsed with strconv.Atoi", false)
+				l.add("R-NEGIDX", b.Name, key, b.rel(fn.Pos()), Undecided, "no parse of the key into an int found", false)
 				continue
 			}
 			// idx < 0 branch
